@@ -358,8 +358,8 @@ fn case(m: &mut Mon, r: &mut Rng, _idx: u64) {
 fn main() {
     mon::main(Spec {
         prop: "C05",
-        quick_cases: 60_000,
-        thorough_cases: 3_000_000,
+        quick_cases: 400_000,
+        thorough_cases: 6_000_000,
         rule: "One target value (0, around 2^64/2^128/2^192/2^256, 2^n-1, 1..3 limbs, long) is produced by ~30 routes (from_words incl. zero padding, bytes, parsing in 3 radices, (v+k)-k, (v*k)/k, shifts, clone, clone_from onto 8 host sizes, split/rejoin, chunks, set/clear bit, primitives, UBig::ones, via IBig, masks, mem::take); every pair must be ==, cmp Equal, hash-equal and have a canonical layout (hook); routes of a neighbour value w must order like the model. IBig adds sign routes; RBig adds non-reduced / signed-denominator / arithmetic / parse / canonicalize routes (lowest terms checked) and Relaxed non-reduced twins; FBig compares equal values at different precisions, modes and trailing-zero forms, neighbours by significand/exponent, and infinities. non-trivial = non-zero target.",
         assumptions: &["std DefaultHasher with its fixed default keys", "num-bigint / num-rational ordering"],
         required: &[("ubig_routes", false), ("ibig_routes", false), ("ratio_routes", false), ("float_routes/b2", false), ("float_routes/b10", false)],
